@@ -357,4 +357,29 @@ def twoFlags (a b : OptCliVar) : Except Err Unit :=
 def flagsOf (cmd : OptCommand) : List OptCliVar :=
   (optRows.filter (fun r => r.scope != 3 || r.owner == cmd.name)).flatMap (·.cli)
 
+/-! ## the schema of a backend-specific option — ANY backend, not only the probed ones
+
+`cli.parser_for_backend(cls)` and `config.config_for_backend(cls)` walk the keyword-only parameters of the backend's
+constructor, whatever the class is (shipped, or a custom one found through the `replicat.backends` namespace package)
+and whatever its parameters look like (annotated or not, with or without default).  For each they create ONE flag
+(`--<name with hyphens>`, `type` = `Gen.optBackendCliTy`), one environment variable (`<SHORT NAME>_<NAME>`, read through
+`Gen.optBackendEnvTy`) and one file key (`<name with hyphens>`, read through `Gen.optBackendFileTy`).  The three type
+functions come from the extractor: the two validators from the AST of `BaseBackendConfig`, the flag's `type` from the live
+parsers of all probed backends — among them one whose options carry `str`, `int`, `bool`, `float`, `Optional`, `Union` and
+string annotations — and it is `.other` unless it is the same function for every one of them.  The names are parameters
+(strings; how they are derived from the parameter name is checked by the harness against the live parser). -/
+def customBackendRow (owner dest flag envVar key : String) (builtinKind : Nat) : OptRow :=
+  { dest := dest, scope := 2, owner := owner,
+    cli := [{ flag := flag, flags := [flag], kind := .typed, ty := optBackendCliTy, group := none,
+              dflt := if builtinKind == 4 then 0 else builtinKind }],
+    env := some (envVar, optBackendEnvTy),
+    file := [{ key := key, kind := .plain, ty := optBackendFileTy }],
+    inCfg := true, early := false, builtinKind := builtinKind }
+
+/-- a row of the generated table is an instance of the schema (names and kind of default read off the row itself) -/
+def isCustomInstance (row : OptRow) : Bool :=
+  match row.cli, row.env, row.file with
+  | [v], some (e, _), [f] => row == customBackendRow row.owner row.dest v.flag e f.key row.builtinKind
+  | _, _, _ => false
+
 end Replicat.Options
